@@ -209,7 +209,7 @@ def corr_function_level(ctx, I):
         minq = rng.choice(BOUNDARY_QINDICES) if rng.random() < 0.3 else rng.choice([0, 0, 0, 1, 5, 20, 60, 130, 260])
         add(tc, pb, minq, rng.choice([1, 1, 1, 2, 3, 10, 0]), profile, "synthetic")
     # slices whose smallest fitting index is exactly at / next to the largest index the qindex field can hold
-    for _ in range(ctx.pick(90, 900)):
+    for _ in range(ctx.pick(60, 900)):
         profile = rng.choice(["hq", "ld"])
         tc, pb, minq, mins = boundary_tc(rng, profile)
         add(tc, pb, minq, mins, profile, "boundary")
